@@ -567,6 +567,11 @@ func (fg *FuncGen) invoke(v *ssa.Call, c *ssa.CallCommon) {
 		fg.assumeBelow(r, fg.famIn(fg.st, "wm"))
 	}
 	fg.setCallResults(v, rs)
+	// assumed facts about methods of interfaces defined outside the repository
+	if isNamed(c.Value.Type(), "reflect", "Type") && c.Method.Name() == "Elem" && len(rs) == 1 {
+		fg.assume("(not (= (itype " + rs[0].S + ") 0))")
+		fg.assumed = append(fg.assumed, "reflect.Type.Elem returns a non-nil Type")
+	}
 	if recv.Sort != "Iface" {
 		return
 	}
@@ -639,7 +644,7 @@ func (fg *FuncGen) builtin(v *ssa.Call, b *ssa.Builtin, c *ssa.CallCommon) {
 			}
 			_, _, cf := g.MapFamilies(g.SortOf(mt.Elem()))
 			t := fg.define(v, fmt.Sprintf("(ite (= %s 0) 0 (select %s %s))", x.S, fg.famIn(fg.st, cf), x.S))
-			fg.assume("(and (<= 0 " + t.S + ") (<= " + t.S + " MaxInt))")
+			fg.assume("(and (<= 0 " + t.S + ") (<= " + t.S + " MaxAlloc))")
 		default:
 			fg.unsupp("len of sort %s", x.Sort)
 			fg.declare(v)
